@@ -19,19 +19,21 @@ assert rc == 0, out
 meta = {"seed": name, "property": name.split("-")[0], "base_commit": sh("git -C /repo rev-parse --short HEAD")[1].strip(), "ran": []}
 try:
     demo = open(os.path.join(sd, "demo_test.go")).read()
+    notes_txt = open(os.path.join(sd, "notes.md")).read() if os.path.exists(os.path.join(sd, "notes.md")) else ""
+    hdr = demo[:3000] + "\n" + notes_txt
     m = re.search(r"^package (\w+)", demo, re.M)
     pkgname = m.group(1)
     # target directory: from the header comment ("copy ... into <dir>/")
     cands = re.findall(r"([\w./-]+/)(?:\s|`|\)|,|$)", demo[:3000])
     target = None
-    for c in re.findall(r"(?:into|to|in)\s+(?:the package directory\s+)?`?([\w./-]+?)/?`?[\s(,]", demo[:3000]):
-        d = c.strip("`/").replace("/tmp/wt-%s/" % meta["property"], "")
+    for c in re.findall(r"(?:into|to|in)\s+(?:the package directory\s+)?`?([\w./-]+?)/?`?[\s(,]", hdr):
+        d = re.sub(r"^/tmp/wt\d*-%s/" % meta["property"], "", c.strip("`")).strip("/")
         d = re.sub(r"/[\w]+_test\.go$", "", d)
         if os.path.isdir(os.path.join(wt, d)) and d not in (".", ""):
             target = d
             break
     if target is None:
-        mm = re.search(r"go test[^\n]*?(\./[\w/]+)/?\s*$", demo[:4000], re.M)
+        mm = re.search(r"go test[^\n]*?(\./[\w/]+)/?\s*$", hdr, re.M)
         if mm:
             target = mm.group(1).lstrip("./")
     if target is None:
@@ -41,7 +43,7 @@ try:
     if target.startswith("gcetcbendorsement"):
         moddir = os.path.join(wt, "gcetcbendorsement")
         rel = target[len("gcetcbendorsement"):].lstrip("/") or "."
-    run = re.search(r"-run\s+'?\"?([\w|^$]+)", demo[:4000])
+    run = re.search(r"-run\s+'?\"?([\w|^$]+)", hdr)
     runpat = run.group(1) if run else "Test"
     dst = os.path.join(wt, target, "zz_seed_demo_test.go")
     def demo_run():
@@ -67,7 +69,6 @@ try:
     meta["suite_passes_with_patch"] = not other
     meta["detected_by"] = {}
     for c in checks:
-        rc, out = subprocess.run("VERIF_REPO=%s %s/check %s quick" % (wt, V, c), shell=True, stdout=subprocess.PIPE, stderr=subprocess.STDOUT, text=True).returncode, ""
         p = subprocess.run("VERIF_REPO=%s %s/check %s quick" % (wt, V, c), shell=True, stdout=subprocess.PIPE, stderr=subprocess.DEVNULL, text=True)
         viol = [l.strip() for l in p.stdout.splitlines() if l.startswith("VIOLATION") or l.startswith("  assert") or l.startswith("  panic") or l.startswith("  alloc") or l.startswith("  unwind")]
         meta["detected_by"][c] = {"exit": p.returncode, "violations": viol[:6]}
